@@ -7,6 +7,7 @@ package main
 import (
 	"fmt"
 	"go/token"
+	"go/types"
 	"sort"
 	"strings"
 
@@ -223,5 +224,80 @@ func globalFrameJobs(e *Engine, P string) []*Job {
 	}
 	jobs = append(jobs, structJob("module/global-frame/summary", "global-frame", unguarded == 0,
 		fmt.Sprintf("%d functions reachable from the load and derivation entry points; %d writes to package-level variables outside init, %d of them without a held package-level mutex", len(names), len(writes), unguarded), ""))
+	return jobs
+}
+
+// globalMapRangeJobs (C02): iterating a package-level map is order-dependent unless the iteration is proved
+// order-independent. Every `range` over (a load of) a package-level map in the functions reachable from the load
+// and derivation entry points must be over a rule table declared in the contract files (whose K5 lemma proves
+// the patterns pairwise exclusive, so "first match" is a function of the key) or happen inside a function under
+// contract (whose map loops are proved with a nondeterministic iterator, i.e. for all orders).
+func globalMapRangeJobs(e *Engine, P string) []*Job {
+	fns := e.reachable(loadEntryPoints)
+	for k, f := range e.byKey {
+		if strings.HasPrefix(k, "types.(*Project).With") || strings.HasPrefix(k, "types.(*Project).ForEachService") || strings.HasPrefix(k, "graph.InDependencyOrder") {
+			for g := range e.reachable([]string{fnKey(f)}) {
+				fns[g] = true
+			}
+		}
+	}
+	declared := map[string]bool{}
+	for _, ts := range e.Specs.Tables {
+		declared[ts.Pkg+"."+ts.Name] = true
+	}
+	var jobs []*Job
+	var names []string
+	byName := map[string]*ssa.Function{}
+	for f := range fns {
+		if !e.isInitFn(f) {
+			names = append(names, fnKey(f))
+			byName[fnKey(f)] = f
+		}
+	}
+	sort.Strings(names)
+	n := 0
+	for _, k := range names {
+		f := byName[k]
+		for _, b := range f.Blocks {
+			for _, ins := range b.Instrs {
+				rg, ok := ins.(*ssa.Range)
+				if !ok {
+					continue
+				}
+				if _, isMap := rg.X.Type().Underlying().(*types.Map); !isMap {
+					continue
+				}
+				u, ok := rg.X.(*ssa.UnOp)
+				if !ok {
+					continue
+				}
+				g, ok := u.X.(*ssa.Global)
+				if !ok || g.Pkg == nil {
+					continue
+				}
+				n++
+				gn := g.Pkg.Pkg.Name() + "." + g.Name()
+				_, contracted := e.Specs.Funcs[k]
+				frozen := false
+				for _, ti := range e.tables {
+					if ti.Global == g && ti.Frozen && !ti.Open && len(ti.Rows) > 0 {
+						frozen = true
+					}
+				}
+				okk := declared[gn] || (contracted && frozen)
+				why := "declared rule table (exclusivity lemma)"
+				if !declared[gn] && okk {
+					why = "enumerable frozen rule table (constant keys, function values, never written after init) ranged in a function under contract, whose map loops are proved for every iteration order"
+				}
+				if !okk {
+					why = "NOT a declared table, or not an enumerable frozen rule table ranged in a function under contract: the result may depend on map iteration order"
+				}
+				p := e.Fset.Position(rg.Pos())
+				jobs = append(jobs, structJob(fmt.Sprintf("%s/global-map-range[%s]", k, gn), "global-map-range", okk,
+					fmt.Sprintf("range over package-level map %s at %s:%d: %s", gn, p.Filename, p.Line, why), fmt.Sprintf("%s:%d", p.Filename, p.Line)))
+			}
+		}
+	}
+	jobs = append(jobs, structJob("module/global-map-range/summary", "global-map-range", true, fmt.Sprintf("%d ranges over package-level maps in %d reachable functions", n, len(names)), ""))
 	return jobs
 }
